@@ -57,6 +57,11 @@ func (s *scanner) Scan(value bytes.Bytes) (*Number, error) {
 		return nil, err
 	}
 
+	if len(n.nat) == 0 {
+		// Zero has no sign: -0 equals 0.
+		n.neg = false
+	}
+
 	return &n, nil
 }
 
